@@ -261,6 +261,9 @@ def given_hamiltonian_matrix(mol, case):
     return M, nq, direct
 
 
+GIVEN_TOL = 1e-6
+
+
 def check_given_hamiltonian(mol, solver, case, what, theta=None):
     """solver.qubit_hamiltonian is the Hamiltonian the solver was given; energy_estimation(theta) is its expectation."""
     M, nq, direct = given_hamiltonian_matrix(mol, case)
@@ -270,7 +273,10 @@ def check_given_hamiltonian(mol, solver, case, what, theta=None):
     Ms = R.qop_matrix(terms, nq)
     scale = max(1.0, float(np.max(np.abs(M))))
     dev = float(np.max(np.abs(Ms - M)))
-    if dev > 1e-8 * scale:
+    # The solver's operator went through openfermion arithmetic, which drops coefficients below 1e-8 at each step; matrix
+    # entries add up many such terms (thorough tier: deviations of 5e-8 and 2e-7 on the unchanged tree). A wrongly
+    # assembled Hamiltonian or penalty differs by >= 1e-3.
+    if dev > GIVEN_TOL * scale:
         raise Fail(f"{what}: solver.qubit_hamiltonian deviates by {dev} from molecular Hamiltonian + documented penalty "
                    f"{case.get('penalty')} [mapping {case['mapping']}, up_then_down {effective_utd(case)}]",
                    sig=f"{what}:hamiltonian-vs-given" + (":penalty" if case.get("penalty") else ""))
@@ -279,7 +285,7 @@ def check_given_hamiltonian(mol, solver, case, what, theta=None):
         psi, n = solver_state(solver)
         if n == nq:
             ref = complex(np.vdot(psi, M @ psi))
-            if abs(complex(e) - ref) > 1e-8 * scale:
+            if abs(complex(e) - ref) > GIVEN_TOL * scale:
                 raise Fail(f"{what}: energy_estimation = {e!r}, <psi| H_mol + penalty |psi> = {ref!r} (penalty {case.get('penalty')})",
                            sig=f"{what}:energy-vs-given-hamiltonian")
     return direct
